@@ -7,6 +7,7 @@ condition has its own true and false edge, materialised as 'T' / 'F' nodes;
 dominance.  `finally` bodies are copied once per exit kind that crosses them.
 """
 import ast
+from .normalize import InlineBlock, InlineJump
 from .model import AnalysisError, norm
 
 
@@ -260,6 +261,24 @@ class CFG:
             return self._seq(st.body, [n], ctx)
         if isinstance(st, ast.Try):
             return self._try(st, frontier, ctx)
+        if isinstance(st, InlineBlock):
+            # body of an inlined helper: its returns (InlineJump) continue after the block
+            out = self._seq(st.prologue, frontier, ctx)
+            join = self._new("join", st, note="inline-after")
+            ictx = _Ctx({
+                "return": lambda: join,
+                "raise": lambda: ctx.target("raise"),
+                "break": self._bad_jump,
+                "continue": self._bad_jump,
+            }, ctx)
+            out = self._seq(st.body, out, ictx)
+            self._connect(out, join)
+            return self._seq(st.epilogue, [join], ctx)
+        if isinstance(st, InlineJump):
+            n = self._new("stmt", st, note="inline-return")
+            self._connect(frontier, n)
+            self._edge(n, ctx.target("return"))
+            return []
         raise AnalysisError(
             f"statement kind {type(st).__name__} at line {st.lineno} of {self.name} not modelled")
 
